@@ -290,6 +290,37 @@ def run(ctx, repo):
     dispatch = {}
     cur = [st for st in bt.body if isinstance(st, ast.If)]
     node = cur[0] if cur else None
+    # decided by folding bib_trial over the letters (and one letter that is none of them) with the four trial methods replaced by
+    # recorders; the reading of the if-chain below is the fallback
+    try:
+        from .. import fold as _fold
+
+        class _Rec(_fold.Folder):
+            def __init__(self):
+                _fold.Folder.__init__(self)
+                self.called = []
+
+            def call(self, fc, args, kw):
+                if fc.node.name in TRIALS:
+                    self.called.append(fc.node.name)
+                    return None
+                return _fold.Folder.call(self, fc, args, kw)
+        menv_ = dict(repo.folded(HJ)[0])
+        meths_ = {m_: _fold.FuncConst(Cm[m_], menv_) for m_ in TRIALS if m_ in Cm}
+        fdisp = {}
+        for letter in ('o', 'x', 'r', '-', '?'):
+            F_ = _Rec()
+            me_ = _fold.ObjConst({}, meths_)
+            try:
+                F_.call(_fold.FuncConst(bt, menv_), [me_, 'A', letter], {})
+                fdisp[letter] = F_.called[0] if len(F_.called) == 1 else ('pass' if not F_.called else 'several')
+            except _fold._Raise as ex_:
+                fdisp[letter] = 'raises'
+        if fdisp.get('?') == 'raises' and fdisp.get('-') == 'pass':
+            dispatch = {k: (None if v == 'pass' else v) for k, v in fdisp.items() if k != '?'}
+            node = None
+    except Exception:
+        pass
     while node is not None:
         t = node.test
         if isinstance(t, ast.Compare) and isinstance(t.ops[0], ast.Eq) and isinstance(t.comparators[0], ast.Constant):
